@@ -955,6 +955,21 @@ func (sc *Scope) callExpr(e *Expr) (tv, error) {
 		return tv{sv{fmt.Sprintf("(and (not (= %s LNilV)) (not (= %s (LBoolV false))))", scal(0), scal(0))}, tBool}, nil
 	case "same":
 		return tv{sv{fmt.Sprintf("(= %s %s)", scal(0), scal(1))}, tBool}, nil
+	case "hastype":
+		// hastype(x, "T"): the non-LValue interface value x holds a (non-nil) pointer of dynamic type T
+		if len(e.Args) != 2 || e.Args[1].Op != "str" {
+			return errf("hastype(x, \"T\")")
+		}
+		t := eng.typeByText(e.Args[1].Str)
+		if t == nil {
+			return errf("hastype: unknown type %s", e.Args[1].Str)
+		}
+		s, ok := args[0].sym.(sv)
+		if !ok {
+			return errf("hastype of a composite value")
+		}
+		vc.needFun("dyntype", "(Int) Int")
+		return tv{sv{fmt.Sprintf("(and (not (= %s 0)) (= (dyntype %s) %s))", s.t, s.t, eng.typeID(t))}, tBool}, nil
 	case "fresh":
 		switch s := args[0].sym.(type) {
 		case sv:
